@@ -35,6 +35,11 @@ type Topo struct {
 	// answers ctx.Err() when it was made with a context that is already cancelled (the Stop / Teardown
 	// calls that end a force-stopped run are made with the cancelled connector context)
 	StrictCtx bool `json:"strict_ctx,omitempty"`
+	// AckBatch > 1: the fake destination plugins batch their acks: one Ack response covers up to AckBatch
+	// written records (sent when that many have their verdict, or 3 ms after the first of them), and the
+	// transport hands a Write that completes such a batch back to the engine only after the response was
+	// consumed (the plugin answered before the engine's Write call returned)
+	AckBatch int `json:"ack_batch,omitempty"`
 }
 
 const PipelineID = "pl"
@@ -199,6 +204,7 @@ func NewSys(t Topo) (*Sys, error) {
 	ctx := context.Background()
 	w := NewWorld()
 	w.strictCtx = t.StrictCtx
+	w.ackBatch = t.AckBatch
 	logger := log.Nop()
 	mem := &inmemory.DB{}
 	gdb := &gatedDB{DB: mem, w: w}
